@@ -331,6 +331,9 @@ def tell_generation(col, cfg, st, popn, cvec, inc, ctx, entry="set_evaluation_fe
         prev, _ = inc.best()
         inc.tell(c, x)
         fb = -c if cfg.maximize else c
+        if c != c:
+            # a nan return has no meaningful sign: both bit patterns are fed (positive at even, negative at odd positions)
+            fb = float(np.copysign(np.nan, 1.0 if k % 2 == 0 else -1.0))
         call(col, entry, dict(ctx, costs=cvec, k=k), C.set_evaluation_feedback, cfg, st, popn, fb)
         best, who = inc.best()
         if best is None:
